@@ -341,6 +341,23 @@ func Invalid(r *rand.Rand) Case {
 	}
 	in := func() int { return fi.lo + r.Intn(fi.hi-fi.lo+1) }
 	class := ""
+	if r.Intn(8) == 0 { // numbers far outside any range, in every position a number can stand
+		huge := []string{"9223372036854775807", "9223372036854775806", "9223372036854775808", "99999999999", "4294967296", "2147483648",
+			"18446744073709551616", "1000000", "99999"}[r.Intn(9)]
+		var forms []string
+		switch k {
+		case 3:
+			forms = []string{"%s", "1-%s", "%s-31", "1/%s", "%s/1", "1,%s", "%s,1", "1-%s/2", "%s-31/2", "1-5/%s", "L-%s", "%sW", "*/%s"}
+		case 5:
+			forms = []string{"%s", "1-%s", "%s-7", "1/%s", "%s/1", "1,%s", "%s,1", "1-%s/2", "1-5/%s", "%sL", "%s#1", "1#%s", "*/%s"}
+		default:
+			forms = []string{"%s", "LO-%s", "%s-HI", "LO/%s", "%s/1", "LO,%s", "%s,LO", "LO-%s/2", "%s-HI/2", "LO-HI/%s", "*/%s"}
+		}
+		f := forms[r.Intn(len(forms))]
+		f = strings.ReplaceAll(strings.ReplaceAll(f, "LO", fmt.Sprint(fi.lo)), "HI", fmt.Sprint(fi.hi))
+		base[k] = fmt.Sprintf(f, huge)
+		return Case{Expr: strings.Join(base, " "), Feature: "invalid", Expect: MustReject, Class: "huge-number"}
+	}
 	switch r.Intn(14) {
 	case 0:
 		class = "field-count"
